@@ -92,8 +92,21 @@ func checkTasksRestored(w *World, r *Report, loadJob *FieldMap) {
 	}
 	// element writes: a jobTask stored into an element of / appended to a slice, inside a loop
 	type elemWrite struct {
-		in   ssa.Instruction
-		base map[ssa.Value]bool
+		in       ssa.Instruction
+		base     map[ssa.Value]bool
+		viaField bool // the element is written through the job's own Tasks field (job.Tasks[i] = …)
+	}
+	isTasksField := func(v ssa.Value) bool {
+		ld, ok := v.(*ssa.UnOp)
+		if !ok || ld.Op != token.MUL {
+			return false
+		}
+		fa, ok := ld.X.(*ssa.FieldAddr)
+		if !ok {
+			return false
+		}
+		n := namedOf(fa.X.Type())
+		return n != nil && n.Obj() == jobT.Obj() && fieldName(fa.X.Type(), fa.Field) == "Tasks"
 	}
 	var writes []elemWrite
 	var stores []*ssa.Store
@@ -109,12 +122,16 @@ func checkTasksRestored(w *World, r *Report, loadJob *FieldMap) {
 				if ia, ok := x.Addr.(*ssa.IndexAddr); ok && isTask(x.Val.Type()) && loopHeaderOf(x.Block()) != nil {
 					b := map[ssa.Value]bool{}
 					chain(ia.X, b, 0)
-					writes = append(writes, elemWrite{in, b})
+					via := isTasksField(ia.X)
+					for v := range b {
+						via = via || isTasksField(v)
+					}
+					writes = append(writes, elemWrite{in, b, via})
 				}
 			case *ssa.Call:
 				if b, ok := x.Call.Value.(*ssa.Builtin); ok && b.Name() == "append" && len(x.Call.Args) == 2 && loopHeaderOf(x.Block()) != nil {
 					if sl, ok := x.Type().Underlying().(*types.Slice); ok && isTask(sl.Elem()) {
-						writes = append(writes, elemWrite{in, map[ssa.Value]bool{ssa.Value(x): true}})
+						writes = append(writes, elemWrite{in, map[ssa.Value]bool{ssa.Value(x): true}, false})
 					}
 				}
 			}
@@ -130,6 +147,10 @@ func checkTasksRestored(w *World, r *Report, loadJob *FieldMap) {
 		chain(st.Val, val, 0)
 		ok := false
 		for _, ew := range writes {
+			// job.Tasks = make(…, len(persisted)) … job.Tasks[i] = jobTask{…}
+			if _, isMake := w.Resolve(st.Val).(*ssa.MakeSlice); isMake && ew.viaField {
+				ok = true
+			}
 			for b := range ew.base {
 				switch b.(type) {
 				case *ssa.MakeSlice, *ssa.Call, *ssa.Alloc:
